@@ -12,31 +12,31 @@ const BaseTS = int64(1577836800) * 1e9
 // Names are pairwise non-prefix (bytemap.Get matches keys by prefix, which is
 // a listed finding of C01; the shared generators stay outside that class).
 var (
-	DimNames  = []string{"da", "db", "dc", "dd"}
-	MixedDim  = "dm"
-	ValNames  = []string{"va", "vb", "vc"}
-	WeightVal = "vw"
+	DimNames    = []string{"da", "db", "dc", "dd"}
+	MixedDim    = "dm"
+	ValNames    = []string{"va", "vb", "vc"}
+	WeightVal   = "vw"
 	Resolutions = []int64{250e6, 1e9, 2e9, 5e9, 7e9, 60e9}
 )
 
 // GenCfg bounds the shared generators.
 type GenCfg struct {
-	MaxPoints   int
-	MaxPeriods  int
-	MaxTables   int
-	MaxFields   int
-	AllowView   bool
-	AllowWhere  bool
-	AllowMixed  bool // mixed-type dimension dm and junk values
-	AllowPct    bool
-	AllowConst  bool // constants inside arithmetic
-	AllowTimer  bool // timer flushes (MaxFlushLatency of a few ms)
-	AllowIf     bool
-	AllowArrays bool
-	FixedRes    int64
-	AdditiveOnly bool // only _points/SUM/COUNT/AVG fields (C02)
+	MaxPoints      int
+	MaxPeriods     int
+	MaxTables      int
+	MaxFields      int
+	AllowView      bool
+	AllowWhere     bool
+	AllowMixed     bool // mixed-type dimension dm and junk values
+	AllowPct       bool
+	AllowConst     bool // constants inside arithmetic
+	AllowTimer     bool // timer flushes (MaxFlushLatency of a few ms)
+	AllowIf        bool
+	AllowArrays    bool
+	FixedRes       int64
+	AdditiveOnly   bool // only _points/SUM/COUNT/AVG fields (C02)
 	NamedGroupOnly bool
-	Excluded    *int // counts shapes excluded because of listed findings
+	Excluded       *int // counts shapes excluded because of listed findings
 }
 
 func strVals(dim string) []Val {
